@@ -28,12 +28,12 @@ func NewStreamTracker() *StreamTracker {
 }
 
 // RegisterStream adds a new active stream
-func (st *StreamTracker) RegisterStream(id, method, direction, sourceShard, targetShard, role string) {
+func (st *StreamTracker) RegisterStream(id, method, direction, sourceShard, targetShard, role string) *StreamInfo {
 	st.mu.Lock()
 	defer st.mu.Unlock()
 
 	now := time.Now()
-	st.streams[id] = &StreamInfo{
+	info := &StreamInfo{
 		ID:            id,
 		Method:        method,
 		Direction:     direction,
@@ -45,6 +45,8 @@ func (st *StreamTracker) RegisterStream(id, method, direction, sourceShard, targ
 		SenderDebug:   &SenderDebugInfo{},
 		ReceiverDebug: &ReceiverDebugInfo{},
 	}
+	st.streams[id] = info
+	return info
 }
 
 // UpdateStream updates the last seen time for a stream
@@ -97,6 +99,18 @@ func (st *StreamTracker) UnregisterStream(id string) {
 	defer st.mu.Unlock()
 
 	delete(st.streams, id)
+}
+
+// UnregisterStreamEntry removes the entry under id only if it is still the one RegisterStream returned to the caller. A
+// stream that is re-established while the handler of its previous incarnation has not returned yet registers under the
+// same id; when the old handler returns it must not remove its successor's entry.
+func (st *StreamTracker) UnregisterStreamEntry(id string, info *StreamInfo) {
+	st.mu.Lock()
+	defer st.mu.Unlock()
+
+	if cur, ok := st.streams[id]; ok && cur == info {
+		delete(st.streams, id)
+	}
 }
 
 // UpdateStreamSenderDebug sets the sender debug snapshot for a stream
